@@ -272,7 +272,7 @@ class Ctx:
     def case(self, canon, nontrivial=True):
         """count one evaluated case; canon = canonical JSON-able description for distinctness"""
         self.evaluations += 1
-        h = hashlib.sha1(json.dumps(canon, sort_keys=True, default=str).encode()).hexdigest()
+        h = hashlib.sha1(json.dumps(clean(canon), sort_keys=True, default=str).encode()).hexdigest()
         if h not in self.distinct:
             self.distinct.add(h)
             if nontrivial:
@@ -332,6 +332,29 @@ def jsonable(x):
         return str(x)
     if isinstance(x, (set, tuple)):
         return list(x)
+    if isinstance(x, complex):
+        return [x.real, x.imag]
+    return str(x)
+
+
+def clean(x):
+    """make any structure JSON-serialisable (tuple dict keys -> str, numpy -> python)"""
+    try:
+        import numpy
+        if isinstance(x, numpy.ndarray):
+            return clean(x.tolist())
+        if isinstance(x, numpy.generic):
+            return clean(x.item())
+    except ImportError:
+        pass
+    if isinstance(x, dict):
+        return {(k if isinstance(k, (str, int, float, bool)) or k is None else str(k)): clean(v) for k, v in x.items()}
+    if isinstance(x, (list, tuple, set, frozenset)):
+        return [clean(v) for v in x]
+    if isinstance(x, float):
+        return x if x == x and x not in (float("inf"), float("-inf")) else repr(x)
+    if isinstance(x, (str, int, bool)) or x is None:
+        return x
     if isinstance(x, complex):
         return [x.real, x.imag]
     return str(x)
